@@ -51,7 +51,8 @@ def run_plan(plan):
         s.logical["ops"] += 1
         if kind == "solve":
             res = s.call_solver(op["knobs"], op.get("start", "cold"), op.get("w0"),
-                                op.get("faults"), op.get("storage", plan.get("storage", "F")))
+                                op.get("faults"), op.get("storage", plan.get("storage", "F")),
+                                raw_w0=bool(op.get("raw_w0")))
             res["faults"] = op.get("faults")
             ctx = dict(warm=res["start"] in ("buffers", "point"), degenerate=degenerate, check=check)
             tag(J.judge_result(res, ctx), i)
@@ -88,7 +89,36 @@ def run_plan(plan):
                       plan.get("storage"), _sig_events(results)) if nontrivial else None,
         wall=time.time() - t0,
         n_results=len(results),
+        final=_final(results, J, s) if plan.get("record_final") else None,
+        fam=[fam["solver"], fam["datafit"], fam["penalty"]],
+        cell=plan.get("cell"), draws=plan.get("draws"),
+        outcomes=[r.get("outcome") for r in results][:4] if plan.get("matrix") else None,
     )
+
+
+def _final(results, J, s):
+    """Compact end states for cross-engine comparison (C20): outcome class, whether convergence
+    was claimed, reference objective, coefficients."""
+    out = []
+    for r in results:
+        if r.get("exc") is not None:
+            out.append(dict(outcome=r.get("outcome"), exc=r["exc"]["type"]))
+        elif r.get("w") is not None:
+            P, exact = None, False
+            try:
+                P = J.objective_of(r)
+                pr = J.problem(r["fi"])
+                exact = bool(pr.pen.convex and criterion_of(s.solver_name, r["knobs"]) == "subdiff"
+                             and s.solver_name in B.C01_SOLVERS)
+            except Exception:
+                pass
+            out.append(dict(outcome="solved", w=np.asarray(r["w"], dtype=float).ravel().tolist(),
+                            claimed=bool(r.get("claimed")), tol=r["knobs"].get("tol"), P=P, exact=exact))
+    return out
+
+
+def _unused():
+    return None
 
 
 # ---------------------------------------------------------------------- crash-point grid
